@@ -30,7 +30,7 @@ echo "--- the same moment without --cache: group t"
 UNCACHED=$(run t)
 echo "$UNCACHED"
 
-if echo "$CACHED" | grep -q "/t/a" && ! echo "$UNCACHED" | grep -q "^ .*/t/a"; then
+if echo "$CACHED" | grep -q "^ .*/t/a" && ! echo "$UNCACHED" | grep -q "^ .*/t/a"; then
     echo "DEFECT PRESENT: the cached run reports the unreadable t/a as a duplicate without a warning, the uncached run warns and reports nothing"
     exit 1
 fi
